@@ -287,6 +287,20 @@ Theorem C02_gen_centre_roundtrip_partial : forall (M : libm) i lon Y, valid i ->
 Proof. exact gen_centre_roundtrip_partial. Qed.
 Print Assumptions C02_gen_centre_roundtrip_partial.
 
+(* totality of the run-time entries: on well-shaped arguments (any ID string, any option, any indices, ANY observed value) an entry never answers
+   "bad-case" (= "the model cannot process this case"): it judges the case or, beyond the stated size bound, answers class "skipped" *)
+Theorem C02_entries_total : forall oracle,
+  (forall sid id opt obs, v_class (d_point_on_id oracle sid [VS id; VZ opt] obs) <> "bad-case"%string) /\
+  (forall id sid obs, v_class (d_roundtrip oracle [VS id; VB sid] obs) <> "bad-case"%string) /\
+  (forall cq x y h f v obs, v_class (d_vertex_hook oracle cq [VZ x; VZ y; VZ h; VZ f; VZ v] obs) <> "bad-case"%string) /\
+  (forall f v obs, v_class (d_alt_hook [VZ f; VZ v] obs) <> "bad-case"%string) /\
+  (forall id obs, v_class (d_attrs_hook [VS id] obs) <> "bad-case"%string).
+Proof.
+  exact (fun oracle => conj (d_point_on_id_total oracle) (conj (d_roundtrip_total oracle) (conj (d_vertex_hook_total oracle)
+          (conj d_alt_hook_total d_attrs_hook_total)))).
+Qed.
+Print Assumptions C02_entries_total.
+
 (* non-vacuity: a concrete valid ID at the last column / first row / negative f and a concrete (toy, decreasing) oracle satisfy every hypothesis,
    and the model's outputs pass the checkers *)
 Definition toy_sinh (x : float) : float := x.
